@@ -68,33 +68,40 @@ def run(facts, out):
     if body is not None and sec is not None:
         variants = [v['name'] for v in sec['variants']]
         found = {}
-        for bi, blk in enumerate(body.blocks):
-            t = blk['term']
-            if t['k'] != 'switch' or t['discr_ty'].get('s') not in ('isize', 'u8', 'usize', 'i8'):
-                pass
-            if t['k'] != 'switch':
-                continue
-            dl = op_local(t['discr'])
-            if dl is None:
-                continue
-            # discr of a local of type Section
-            d = [x for x in body.defs.get(dl, []) if x[2] == 'assign' and x[3]['rv']['k'] == 'discr']
-            if not d:
-                continue
-            pl = d[0][3]['rv']['pl']
-            if pl['p'] or body.locals[pl['l']].get('adt') != 'section::Section':
-                continue
-            for val, tgt in t['arms']:
-                # the arm block reifies a parse_* fn pointer
-                name = None
-                for s in body.blocks[tgt]['st']:
-                    if s['k'] == 'assign' and s['rv']['k'] == 'cast' and 'ReifyFnPointer' in s['rv']['ck']:
-                        o = s['rv']['op']
-                        if o['k'] == 'const' and 'fn' in o:
-                            name = o['fn']['name']
-                            where = loc_of(s['sp'])
-                if name is not None and val < len(variants):
-                    found[variants[val]] = (name, where)
+        # the table may be inline in the driver or extracted into a helper it calls
+        cands = [body] + [facts.bodies[cp] for cp in sorted({callee_of(t)['path'] for bb0, t in body.calls()
+                                                            if callee_of(t) and callee_of(t)['local']})
+                          if cp in facts.bodies]
+        for body2 in cands:
+          for bi, blk in enumerate(body2.blocks):
+              body = body2
+              t = blk['term']
+              if t['k'] != 'switch' or t['discr_ty'].get('s') not in ('isize', 'u8', 'usize', 'i8'):
+                  pass
+              if t['k'] != 'switch':
+                  continue
+              dl = op_local(t['discr'])
+              if dl is None:
+                  continue
+              # discr of a local of type Section
+              d = [x for x in body.defs.get(dl, []) if x[2] == 'assign' and x[3]['rv']['k'] == 'discr']
+              if not d:
+                  continue
+              pl = d[0][3]['rv']['pl']
+              if pl['p'] or body.locals[pl['l']].get('adt') != 'section::Section':
+                  continue
+              for val, tgt in t['arms']:
+                  # the arm block reifies a parse_* fn pointer
+                  name = None
+                  for s in body.blocks[tgt]['st']:
+                      if s['k'] == 'assign' and s['rv']['k'] == 'cast' and 'ReifyFnPointer' in s['rv']['ck']:
+                          o = s['rv']['op']
+                          if o['k'] == 'const' and 'fn' in o:
+                              name = o['fn']['name']
+                              where = loc_of(s['sp'])
+                  if name is not None and val < len(variants):
+                      found[variants[val]] = (name, where)
+        body = facts.body(DRIVER)
         out.anchor('FR', 'dispatch switch on Section', len(found) >= 11, '%d arms' % len(found))
         for v in variants:
             exp = 'parse_' + snake(v)
@@ -145,7 +152,7 @@ def _calls_named(body, pred):
 def check_parse_section(facts, ps, out):
     skip = _calls_named(ps, lambda c: c['name'] == 'should_skip_line')
     hdr = _calls_named(ps, lambda c: c['path'] == TRY_FROM_LINE)
-    rdl = _calls_named(ps, lambda c: c['name'] == 'read_line')
+    rdl = _calls_named(ps, lambda c: facts.ref_name(c) == 'read_line')
     fnp = [(bb, t) for bb, t in ps.calls() if callee_of(t) is None and not ps.is_cleanup(bb)]
     out.anchor('FR', 'parse_section: skip/header/parser/read_line calls',
                len(skip) == 1 and len(hdr) == 1 and len(fnp) == 1 and len(rdl) == 1,
@@ -287,7 +294,7 @@ def check_parse_section(facts, ps, out):
 
 def check_parse_first(facts, pf, out):
     hdr = _calls_named(pf, lambda c: c['path'] == TRY_FROM_LINE)
-    rdl = _calls_named(pf, lambda c: c['name'] == 'read_line')
+    rdl = _calls_named(pf, lambda c: facts.ref_name(c) == 'read_line')
     out.anchor('FR', 'parse_first_section: header tests / read_line', len(hdr) >= 1 and len(rdl) == 1,
                'header=%d read_line=%d' % (len(hdr), len(rdl)))
     if not hdr or len(rdl) != 1:
